@@ -1,4 +1,4 @@
-From AV Require Import Lib.Base Model.Lifecycle.
+From AV Require Import Lib.Base Model.Lifecycle Model.Shutdown.
 Require Extraction.
 Require Import ExtrOcamlBasic.
-Extraction "model.ml" keep via_apprunner via_run_app entered exited.
+Extraction "model.ml" keep via_apprunner via_run_app entered exited conn_outcome late_accepted server_shutdown_returns.
